@@ -7,6 +7,7 @@ package main
 //   cmac             : BV128 (key) x (Array BV64 BV8) x BV64 -> BV128   (RFC 4493, trusted)
 
 import (
+	"fmt"
 	"go/types"
 
 	"golang.org/x/tools/go/ssa"
@@ -139,7 +140,8 @@ func hashID(iv *IfaceV) int64 {
 // Seg: one segment of a symbolic byte sequence.
 type Seg struct {
 	Lit                 *Term // a single byte, or
-	Arr, Base, Off, Len *Term // Len bytes of array Arr starting at elem(Base, Off)
+	Arr, Base, Off, Len *Term // Len bytes of array Arr starting at elem(Base, Off), or
+	Zero                *Term // Zero zero bytes (fresh make)
 }
 
 const SSeq Sort = "ByteSeq"
@@ -149,11 +151,237 @@ func canonSeq(segs []Seg) *Term {
 	for _, sg := range segs {
 		if sg.Lit != nil {
 			acc = App("seq_snoc", SSeq, acc, sg.Lit)
+		} else if sg.Zero != nil {
+			acc = App("seq_zeros", SSeq, acc, sg.Zero)
 		} else {
 			acc = App("seq_app", SSeq, acc, sg.Arr, sg.Base, sg.Off, sg.Len)
 		}
 	}
 	return acc
+}
+
+func segLen(sg Seg) *Term {
+	switch {
+	case sg.Lit != nil:
+		return BVc(1, 64)
+	case sg.Zero != nil:
+		return sg.Zero
+	}
+	return sg.Len
+}
+
+func (st *State) setRegionLen(id int64, n *Term) {
+	m := make(map[int64]*Term, len(st.regionLen)+1)
+	for k, v := range st.regionLen {
+		m[k] = v
+	}
+	if n == nil {
+		delete(m, id)
+	} else {
+		m[id] = n
+	}
+	st.regionLen = m
+}
+
+// trackedWhole: p is exactly the tracked content of a locally allocated byte region
+func (st *State) trackedWhole(p *SliceV) (int64, []Seg, bool) {
+	rg := Subst(Rg(p.Base), st.substMap())
+	if !rg.IsConst() || !rg.Val.IsInt64() {
+		return 0, nil, false
+	}
+	id := rg.Val.Int64()
+	segs, ok := st.regionSeq[id]
+	if !ok || !isZero(Subst(p.Off, st.substMap())) || Pa(p.Base) != PNil {
+		return 0, nil, false
+	}
+	if n, ok := st.regionLen[id]; ok && st.sameLen(n, p.Len) {
+		return id, segs, true
+	}
+	return 0, nil, false
+}
+
+// trackedSub: p is a sub-slice of a tracked region whose bounds fall on segment boundaries
+func (st *State) trackedSub(p *SliceV) ([]Seg, bool) {
+	rg := Subst(Rg(p.Base), st.substMap())
+	if !rg.IsConst() || !rg.Val.IsInt64() || Pa(p.Base) != PNil {
+		return nil, false
+	}
+	segs, ok := st.regionSeq[rg.Val.Int64()]
+	if !ok {
+		return nil, false
+	}
+	off := st.resolveLen(p.Off)
+	end := st.resolveLen(BVBin("bvadd", p.Off, p.Len))
+	for _, semantic := range []bool{false, true} {
+		eq := func(a, b *Term) bool {
+			if linEqual(a, b) {
+				return true
+			}
+			return semantic && st.impliedEq(a, b)
+		}
+		pos := BVc(0, 64)
+		start := -1
+		if eq(pos, off) {
+			start = 0
+		}
+		for i, sg := range segs {
+			if start >= 0 && eq(st.resolveLen(pos), end) {
+				return append([]Seg{}, segs[start:i]...), true
+			}
+			pos = BVBin("bvadd", pos, segLen(sg))
+			if start < 0 && eq(st.resolveLen(pos), off) {
+				start = i + 1
+			}
+		}
+		if start >= 0 && eq(st.resolveLen(pos), end) {
+			return append([]Seg{}, segs[start:]...), true
+		}
+		if len(segs) > 24 {
+			break
+		}
+	}
+	if traceOn {
+		fmt.Printf("TRACKSUB miss: off=%s end=%s segs=%d\n", off.SMT(), end.SMT(), len(segs))
+		pos := BVc(0, 64)
+		for _, sg := range segs {
+			pos = BVBin("bvadd", pos, segLen(sg))
+			fmt.Printf("   boundary %s\n", st.resolveLen(pos).SMT())
+		}
+	}
+	return nil, false
+}
+
+var boundaryPrune = &PruneSolver{}
+
+// impliedEq: the path condition implies a == b (decided by the solver; used to locate slice
+// bounds on segment boundaries when the two are written differently, e.g. through the FOptsLen nibble)
+func (st *State) impliedEq(a, b *Term) bool {
+	if a.Sort != b.Sort {
+		return false
+	}
+	// same symbolic part, different constants: certainly different
+	ca, ma := linParts(a)
+	cb, mb := linParts(b)
+	if ca != cb && len(ma) == len(mb) {
+		same := true
+		for k, v := range ma {
+			if mb[k] != v {
+				same = false
+			}
+		}
+		if same {
+			return false
+		}
+	}
+	as := append(append([]*Term{}, st.assumes...), Not(Eq(a, b)))
+	return !boundaryPrune.Feasible(as)
+}
+
+// resolveLen: substitute known values and the expressions behind make() length names
+func (st *State) resolveLen(t *Term) *Term {
+	t = Subst(t, st.substMap())
+	if len(st.lenAlias) > 0 {
+		t = Subst(t, st.lenAlias)
+		t = Subst(t, st.substMap())
+	}
+	return t
+}
+
+// linEqual: equality of two 64-bit terms as sums (constants folded, summands as a multiset)
+func linEqual(a, b *Term) bool {
+	if a == b {
+		return true
+	}
+	ca, ma := linParts(a)
+	cb, mb := linParts(b)
+	if ca != cb || len(ma) != len(mb) {
+		return false
+	}
+	for k, v := range ma {
+		if mb[k] != v {
+			return false
+		}
+	}
+	return true
+}
+
+func linParts(t *Term) (uint64, map[int]int) {
+	c := uint64(0)
+	m := map[int]int{}
+	var rec func(t *Term, sign int)
+	rec = func(t *Term, sign int) {
+		switch {
+		case t.IsConst() && t.Sort == BV(64):
+			if sign > 0 {
+				c += t.Val.Uint64()
+			} else {
+				c -= t.Val.Uint64()
+			}
+		case t.Op == "bvadd":
+			for _, a := range t.Args {
+				rec(a, sign)
+			}
+		case t.Op == "bvsub" && len(t.Args) == 2:
+			rec(t.Args[0], sign)
+			rec(t.Args[1], -sign)
+		default:
+			m[t.id] += sign
+			if m[t.id] == 0 {
+				delete(m, t.id)
+			}
+		}
+	}
+	rec(t, 1)
+	return c, m
+}
+
+// sameLen: two length terms are known to be equal (identity after substitution, or through the
+// names introduced for make() lengths)
+func (st *State) sameLen(a, b *Term) bool {
+	a, b = Subst(a, st.substMap()), Subst(b, st.substMap())
+	if a == b {
+		return true
+	}
+	if linEqual(st.resolveLen(a), st.resolveLen(b)) {
+		return true
+	}
+	if x, ok := st.lenAlias[a]; ok && Subst(x, st.substMap()) == b {
+		return true
+	}
+	if x, ok := st.lenAlias[b]; ok && Subst(x, st.substMap()) == a {
+		return true
+	}
+	if x, ok := st.lenAlias[a]; ok {
+		if y, ok2 := st.lenAlias[b]; ok2 && Subst(x, st.substMap()) == Subst(y, st.substMap()) {
+			return true
+		}
+	}
+	return false
+}
+
+// baseArrayFor: the array that determines the content of region rg in arr (stores and bulk updates
+// of provably different regions peeled off)
+func baseArrayFor(arr, rg *Term) *Term {
+	for {
+		if arr.Op == "var" {
+			arrayFramesMu.Lock()
+			fi, ok := arrayFrames[arr.id]
+			arrayFramesMu.Unlock()
+			if ok && rgCompare(rg, fi.rg) == 1 {
+				arr = fi.old
+				continue
+			}
+			return arr
+		}
+		if arr.Op == "store" {
+			a := arr.Args[1]
+			if a.Op == "mkaddr" && rgCompare(a.Args[0], rg) == 1 {
+				arr = arr.Args[0]
+				continue
+			}
+		}
+		return arr
+	}
 }
 
 func (st *State) setHashSeq(id int64, segs []Seg) {
@@ -188,16 +416,18 @@ func (st *State) segsOf(p *SliceV) []Seg {
 		}
 		return out
 	}
+	if _, segs, ok := st.trackedWhole(p); ok {
+		return segs
+	}
+	if segs, ok := st.trackedSub(p); ok {
+		return segs
+	}
 	if rg := Subst(Rg(p.Base), st.substMap()); rg.IsConst() {
 		if segs, ok := st.regionSeq[rg.Val.Int64()]; ok && isZero(Subst(p.Off, st.substMap())) {
 			// the slice must cover the whole tracked content
 			total := BVc(0, 64)
 			for _, sg := range segs {
-				if sg.Lit != nil {
-					total = BVBin("bvadd", total, BVc(1, 64))
-				} else {
-					total = BVBin("bvadd", total, sg.Len)
-				}
+				total = BVBin("bvadd", total, segLen(sg))
 			}
 			if Subst(Eq(total, p.Len), st.substMap()).IsTrue() {
 				return segs
